@@ -6,10 +6,11 @@ import re
 import numpy as np
 
 import lib
+import readmodel as rm
 
 PROP = "C08"
-MODEL_TARGETS = ["Model/Num.vo"]
-THEOREMS = ["C08_verbatim", "C08_integer", "C08_float", "C08_guard_current", "C08_api_uwi", "C08_curves_raw"]
+MODEL_TARGETS = ["Model/Num.vo", "Corr/ReadShow.vo"]
+THEOREMS = ["C08_verbatim", "C08_integer", "C08_float", "C08_guard_current", "C08_api_uwi", "C08_api_uwi_any_case", "C08_curves_raw", "C08_parameter_num", "C08_other_num"]
 ASSUMPTIONS = [
     "oracle: np.float64(text) is the correctly rounded double of a decimal literal (checked bit-exactly per case against decimal.Decimal)",
     "model of int()/float() literal syntax (PyLib/NumLit.v) is exact for ASCII strings; non-ASCII digits are rejected by the guard before they are reached",
@@ -258,6 +259,7 @@ def run(ctx):
     file_vals = [s for s in strings if file_value_ok(s)]
     rng.shuffle(file_vals)
     file_vals = ["15_9", "1_0.5", "007", "0012345", "12.5", "1e5", "-999.25", "5,5"] + file_vals[: (3000 if ctx.thorough else 250)]
+    file_cases, file_meta = [], []
     for v in file_vals:
         sect = rng.choice(SECTIONS)
         mn = rng.choice(MNEMS)
@@ -267,12 +269,22 @@ def run(ctx):
         if bad:
             res.oracle_violations.append({"payload": {"kind": "file", "sect": list(sect), "mnem": mn, "value": v, "version": ver},
                                           "what": bad})
+        if v.isascii() and lib.FS not in v:
+            txt = file_for(sect[0], mn, v, ver)
+            exp, _ = rm.impl_read(txt, mnemonic_case="preserve")
+            file_cases.append(rm.coq_case(txt, exp, mnemonic_case="preserve"))
+            file_meta.append(txt)
     if ctx.build.model_ok:
         mism, err = lib.run_coq_cases("c08", [], RUN_NUM, cases)
         res.corr_error = err
         for i in mism:
             s = strings[i]
             res.mismatches.append({"input": s, "impl": canon(impl_num(s))})
+        if file_cases and not err:
+            mism2, err2 = lib.run_coq_cases("c08f", [], rm.RUN_READ, file_cases, shard=60)
+            res.corr_error = err2
+            for i in mism2:
+                res.mismatches.append({"input": file_meta[i], "impl": "whole-file read differs from the model"})
     else:
         res.corr_error = "model not built"
     res.cases = len(cases) + n_file
